@@ -24,7 +24,7 @@ DESIGN_REF = '6.4'
 TECHNIQUE = ('bounded-exhaustive enumeration of directive/statement event sequences + Hypothesis sequences + '
              'Hypothesis rule-based state machine on RuntimeState.update; oracle = directive state model')
 LEVEL_TEXT = ("All sequences of <= 2 (quick) / <= 3 (thorough) events over the full alphabet (block and inline +/-SKIP, "
-              "+/-REQUIRES(met / unmet a / unmet b) on six statement shapes, plain statements, statements with a want, "
+              "+/-REQUIRES(met / unmet a / unmet b) on nine statement shapes (incl. decorated functions and classes in both prompt styles), plain statements, statements with a want, "
               "directive text inside strings) x default options are run as doctests and the executed statements compared "
               "with a model written from the statement; Hypothesis extends this to length 12 and a state machine checks "
               "RuntimeState.update step by step. Bounded-exhaustive below the bound, sampled histories above.")
@@ -32,7 +32,7 @@ LEVEL_NOTE = ("Trusted: the 25-line model (persistent state + per-statement over
               "generated: comment-only lines inside compound bodies, directives on '...' terminator lines, REPORT_* "
               "directives (C11 covers their non-leakage), malformed directives (C09).")
 RULE = ("event sequences over {block, inline} x {+/-SKIP, +/-REQUIRES(met|a|b)} x statement shapes {one line, multi-line "
-        "first/last line, compound header, decorated def, statement with want} + plain statements + string decoys, "
+        "first/last line, compound header, decorated def / class in both prompt styles, statement with want} + plain statements + string decoys, "
         "x default options {none, +SKIP via config, +SKIP via --options}. Non-trivial: an inline directive that differs "
         "from the persistent state or a block directive later reverted, and at least one statement skipped and one run. "
         "Distinct = distinct (sequence, default).")
@@ -47,8 +47,8 @@ B = 'env:VP_UNSET_B==1'
 MET = 'env:VP_MET==1'
 DIRS = [('SKIP', True), ('SKIP', False), ('REQ', True, MET), ('REQ', False, MET), ('REQ', True, A),
         ('REQ', False, A), ('REQ', True, B), ('REQ', False, B)]
-INLINE_SHAPES = ['one', 'multi_first', 'multi_last', 'compound', 'deco', 'want']
-PLAIN_SHAPES = ['one', 'multi', 'want', 'string', 'deco', 'string_ml']
+INLINE_SHAPES = ['one', 'multi_first', 'multi_last', 'compound', 'deco', 'want', 'decoclass', 'decoclass_new', 'deco_new']
+PLAIN_SHAPES = ['one', 'multi', 'want', 'string', 'deco', 'string_ml', 'decoclass', 'decoclass_new', 'deco_new']
 DEFAULTS = ['none', 'skip_config', 'skip_cli']
 
 
@@ -86,6 +86,13 @@ def render(ev, k):
             return ['>>> if True:{}'.format(c), '...     T.append({})'.format(k)]
         if shape == 'deco':
             return ['>>> @(lambda fn: fn())', '... def f{}():{}'.format(k, c), '...     T.append({})'.format(k)]
+        if shape == 'deco_new':
+            return ['>>> @(lambda fn: fn())', '>>> def f{}():{}'.format(k, c), '>>>     T.append({})'.format(k)]
+        if shape == 'decoclass':
+            # the decorator runs when the class statement is executed: skipping must cover the decorator line too
+            return ['>>> @(lambda cls: (T.append({}), cls)[1])'.format(k), '... class K{}:{}'.format(k, c), '...     x = 1']
+        if shape == 'decoclass_new':
+            return ['>>> @(lambda cls: (T.append({}), cls)[1])'.format(k), '>>> class K{}:{}'.format(k, c), '>>>     x = 1']
         if shape == 'want':
             return ['>>> print(T.append({})){}'.format(k, c), 'WANT{}'.format(k)]
         if shape == 'string':
